@@ -1479,8 +1479,10 @@ int main(int argc, char** argv)
     }
     if (subject.rfind("pool-", 0) == 0)
     {
-        static const std::size_t nss[] = {1, 3, 8, 12, 16, 24, 29, 32, 48, 64, 100};
-        std::size_t              ns = nss[g.below(11)];
+        // consecutive seeds walk through the node sizes; every other one is not a multiple of the pointer size (the node
+        // grid is then finer than the alignment of a pointer) - a handful of traces per subject must not depend on luck
+        static const std::size_t nss[] = {12, 16, 29, 8, 100, 1, 20, 24, 9, 32, 3, 48, 10, 64};
+        std::size_t              ns = nss[seed % 14];
         std::size_t              nodes = 3 + g.below(40);
         auto                     run = [&](auto pt)
         {
